@@ -416,6 +416,17 @@ def unchecked_find_deref(f):
             if x is None or y is None or x["k"] != "DeclRefExpr" or x["d"].get("id") not in finds:
                 continue
             if y["k"] in CALLS and (y.get("callee") or {}).get("name") in ("end", "cend"):
+                # the end() of the container that was searched: an iterator of one container never equals the end() of
+                # another one, so such a test lets the 'not found' result through
+                fe = finds[x["d"]["id"]][1]
+                if fe["k"] == "CXXMemberCallExpr":
+                    searched = path(f, f.s(fe.get("obj")))
+                else:
+                    b0 = unwrap(f, f.s(fe["args"][0])) if fe.get("args") else None
+                    searched = path(f, f.s(b0.get("obj"))) if b0 is not None and b0["k"] == "CXXMemberCallExpr" else None
+                ended = path(f, f.s(y.get("obj"))) if y["k"] == "CXXMemberCallExpr" else None
+                if searched and ended and searched != ended:
+                    continue
                 differs_on_true = (op == "!=") != neg
                 s = blk.succs[0] if differs_on_true else blk.succs[1]
                 if s is not None and [p for p in f.blocks[s].preds] == [b]:
@@ -484,6 +495,47 @@ def moves_repeated(f):
     return out
 
 
+def uses_after_move(f):
+    """a local / parameter is passed on with std::move or std::forward (as an rvalue) and used again at a point that
+    can be reached from there without the variable being reassigned: the later use sees a moved-from object
+    (`std::forward<F>(f)(a); std::forward<F>(f)(b);`).  list of (move stmt, path, later use stmt)"""
+    out = []
+    assigns = {}
+    for b, blk in f.blocks.items():
+        for i, e in enumerate(blk.elems):
+            if e["k"] == "S":
+                for ap in assigned_paths(f, f.stmts[e["s"]]):
+                    assigns.setdefault(ap, []).append((b, i))
+    refs = {}
+    for u in f.stmts.values():
+        if u["k"] == "DeclRefExpr" and u["d"].get("k") in ("local", "param") and u["d"].get("id"):
+            refs.setdefault(u["d"]["id"], []).append(u)
+    for st in f.stmts.values():
+        if st["k"] != "CallExpr" or callee_fq(st) not in ("std::move", "std::forward") or st.get("vk") != "x" or not st["args"]:
+            continue
+        a = unwrap(f, f.s(st["args"][0]))
+        if a is None or a["k"] != "DeclRefExpr" or a["d"].get("k") not in ("local", "param"):
+            continue
+        if a["d"].get("pack") or "..." in a["d"].get("type", ""):
+            continue
+        p = path(f, a)
+        pos = f.pos_of(st)
+        if not p or pos is None:
+            continue
+        avoid = set(q for ap, qs in assigns.items() if ap == p for q in qs)
+        inner = {d["id"] for d in f.descendants(st)}
+        for u in refs.get(a["d"]["id"], []):
+            if u["id"] in inner:
+                continue
+            q = f.pos_of(u)
+            if q is None or tuple(q) in avoid or tuple(q) == tuple(pos):
+                continue
+            if f.reach_avoiding(tuple(pos), tuple(q), avoid):
+                out.append((st, p, u))
+                break
+    return out
+
+
 # ------------------------------------------------------- uninitialised locals
 SCALARS = ("bool", "char", "signed char", "unsigned char", "short", "unsigned short", "int", "unsigned int", "long",
            "unsigned long", "long long", "unsigned long long", "float", "double", "long double")
@@ -547,4 +599,24 @@ def moves_from_lvalue_ref(f):
             t = d.get("type", "").strip()
             if t.endswith("&") and not t.endswith("&&") and not t.startswith("const "):
                 out.append((st, d.get("name")))
+        elif d.get("k") == "local" and d.get("ref") and not d.get("inl_ret"):
+            # `auto& slot = map.find(k)->second; use(std::move(slot));` empties storage that belongs to somebody else
+            t = d.get("type", "").strip()
+            if t.endswith("&") and not t.endswith("&&") and not t.startswith("const "):
+                tgt = None
+                for s2 in f.stmts.values():
+                    if s2["k"] == "DeclStmt":
+                        for dd in s2["decls"]:
+                            if dd["id"] == d["id"] and dd.get("init"):
+                                tgt = path(f, f.s(dd["init"]))
+                own_local = False
+                if tgt and tgt.startswith("l:") and "->" not in tgt and "*" not in tgt:
+                    root = tgt.split(".")[0]
+                    for s2 in f.stmts.values():
+                        if s2["k"] == "DeclStmt":
+                            for dd in s2["decls"]:
+                                if "l:" + dd["name"] == root and not dd.get("ref"):
+                                    own_local = True
+                if not own_local:
+                    out.append((st, d.get("name")))
     return out
